@@ -322,7 +322,7 @@ class Pervaporation:
             self.mixture.second_component.get_vaporisation_heat(
                 conditions.initial_feed_temperature
             )
-            / self.mixture.first_component.molecular_weight
+            / self.mixture.second_component.molecular_weight
             * 1000
         )
         if conditions.permeate_temperature is None:
@@ -1031,7 +1031,7 @@ class Pervaporation:
             self.mixture.second_component.get_vaporisation_heat(
                 conditions.initial_feed_temperature
             )
-            / self.mixture.first_component.molecular_weight
+            / self.mixture.second_component.molecular_weight
             * 1000
         )
         if conditions.permeate_temperature is None:
